@@ -72,7 +72,7 @@ def shards(tier, seed):
     for i in range(parts):
         out.append({"name": "playbacks-%d" % i, "kind": "play", "n": n // parts, "weight": 8})
     out.append({"name": "controls-and-observers", "kind": "control", "weight": 2})
-    out.append({"name": "known-finding-witnesses", "kind": "witness", "weight": 1})
+    out.append({"name": "regression-inputs-of-fixed-findings", "kind": "witness", "weight": 1})
     return out
 
 
@@ -264,7 +264,8 @@ def shape_of(tracks, parallel):
 
 
 def canonical_witnesses():
-    """The fixed inputs of the two listed findings (replayed in every run)."""
+    """The inputs of the two repaired play_Bars findings (half notes against quarters; six quarter
+    triplets in 4/4), replayed in every run so that the violation is reported again if it returns."""
     def bar(vals, ch, pitch0):
         return {"key": "C", "meter": [4, 4], "entries": [{"v": v, "notes": [[T.LETTERS[(pitch0 + i) % 7], 4, ch, 80]]} for i, v in enumerate(vals)]}
     halves, quarters = [[2, 0, 1, 1]] * 2, [[4, 0, 1, 1]] * 4
